@@ -4,14 +4,17 @@
 set -u
 ID="$1"; N="$2"; NAME="${3:-m$N}"
 WT="/tmp/wt/${ID}_${N}"; OUT="$WT/_out"; DST="/verif/seeded/${ID}-${NAME}"
+if [ -n "$(git -C /repo status --porcelain)" ]; then echo "/repo has uncommitted changes; refusing"; exit 2; fi
 [ -f "$OUT/patch.diff" ] || { echo "no patch in $OUT"; exit 2; }
 mkdir -p "$DST"; cp -r "$OUT"/* "$DST"/
 cd "$WT" && git checkout -q -- . 
 CMD="$(cat "$OUT/demo_cmd.txt" | grep -v '^#' | grep -v '^$' | tail -n 1)"
+for c in "$WT"/metrics "$WT"/metrics-util "$WT"/metrics-exporter-* "$WT"/metrics-tracing-context; do mkdir -p "$c/tests"; done
 echo "== demo without the change: $CMD"
 ( cd "$WT" && timeout 1200 bash -c "$CMD" ) > "$DST/demo_without.log" 2>&1; RC0=$?
 git -C "$WT" checkout -q Cargo.lock 2>/dev/null
 git -C "$WT" apply "$OUT/patch.diff" || { echo "patch does not apply in worktree"; exit 2; }
+for c in "$WT"/metrics "$WT"/metrics-util "$WT"/metrics-exporter-* "$WT"/metrics-tracing-context; do mkdir -p "$c/tests"; done
 echo "== demo with the change"
 ( cd "$WT" && timeout 1200 bash -c "$CMD" ) > "$DST/demo_with.log" 2>&1; RC1=$?
 echo "== existing tests with the change"
